@@ -154,6 +154,15 @@ func validateCurrencyOverflow(ms *MidState, txn types.Transaction) error {
 	if overflow {
 		return errors.New("transaction outputs exceed inputs") // technically true
 	}
+
+	// The tax on each new contract is added to the siafund pool when the
+	// transaction is applied; that sum must not overflow either.
+	pool := ms.siafundTaxRevenue
+	for _, fc := range txn.FileContracts {
+		if pool, overflow = pool.AddWithOverflow(ms.base.FileContractTax(fc)); overflow {
+			return errors.New("transaction contract tax overflows the siafund pool")
+		}
+	}
 	return nil
 }
 
@@ -613,6 +622,26 @@ func validateV2CurrencyOverflow(ms *MidState, txn types.V2Transaction) error {
 	add(txn.MinerFee)
 	if overflow {
 		return errors.New("transaction outputs exceed inputs") // technically true
+	}
+
+	// The tax on each new contract is added to the siafund pool when the
+	// transaction is applied; that sum must not overflow either.
+	pool := ms.siafundTaxRevenue
+	addTax := func(fc types.V2FileContract) {
+		if !overflow {
+			pool, overflow = pool.AddWithOverflow(ms.base.V2FileContractTax(fc))
+		}
+	}
+	for _, fc := range txn.FileContracts {
+		addTax(fc)
+	}
+	for _, fcr := range txn.FileContractResolutions {
+		if r, ok := fcr.Resolution.(*types.V2FileContractRenewal); ok {
+			addTax(r.NewContract)
+		}
+	}
+	if overflow {
+		return errors.New("transaction contract tax overflows the siafund pool")
 	}
 	return nil
 }
